@@ -377,6 +377,11 @@ func staticSites() []staticSite {
 		}},
 		{"text-before-interpolation", false, func(s string) bool { return noneOf("\n\r")(s) && !strings.Contains(s, "#{") && !strings.ContainsAny(s[:1], "%#.-=/:!\\<>[{") && !strings.HasSuffix(s, `\`) },
 			func(s string) *gen.Node { return txt(st(s), dyn("s0"), st(s)) }},
+		// a backslash that ends the static text in front of an interpolation is written twice
+		{"text-escaped-backslash-before-interpolation", false, func(s string) bool { return noneOf("\n\r")(s) && !strings.Contains(s, "#{") && !strings.ContainsAny(s[:1], "%#.-=/:!\\<>[{") && !strings.HasSuffix(s, `\`) },
+			func(s string) *gen.Node { return txt(st(s), gen.Part{EscBackslash: true}, dyn("s0"), st(" "+s)) }},
+		{"elem-text-escaped-backslash-before-interpolation", false, func(s string) bool { return noneOf("\n\r")(s) && !strings.Contains(s, "#{") && !strings.ContainsAny(s[:1], "=/<>!-") && !strings.HasSuffix(s, `\`) },
+			func(s string) *gen.Node { return el(&gen.Node{Tag: "p", Inline: txt(st(s), gen.Part{EscBackslash: true}, dyn("s0"))}) }},
 		{"filter-plain-before-interpolation", false, func(s string) bool { return noneOf("\n\r")(s) && !strings.Contains(s, "#") },
 			func(s string) *gen.Node { return &gen.Node{Kind: gen.KFilter, Filter: "plain", Lines: [][]gen.Part{{st(s), dyn("s0"), st(s)}}} }},
 		{"filter-preserve-before-interpolation", false, func(s string) bool { return noneOf("\n\r")(s) && !strings.Contains(s, "#") },
@@ -389,7 +394,7 @@ func staticSites() []staticSite {
 	}
 }
 
-var c04Strings = []string{"plain", "Ċč", "Ġ", "Ĩĩ", "Ģģ", "ĺĬ", "ĿĽ", "ŻŽ", "śŝ", "Įĥį", "上不😊", `ends in \n`, `n\`, "nn", `\\n`, "x#", "##", "#é", "a# b", "é#", "a&b", `a"b`, "a'b", `say "hi"`, `back\slash`, "tick`tock", `a\nb`, `\"`, `\x`, `\t`, "{x}", "# h", "a#b", "50% off", "a&b", "<b>", "it's", "ünï", "日本", "a😀b", "x}y", "{", "q?", "a:b", "a,b", "a=b", "~☢<", ">☢~", "tab\there", `\`, `\\`, `"`, "`", "'", "&amp;", "a-b_c", "x.y", "@k", "a/b"}
+var c04Strings = []string{"plain", "a\ufeffb", "zero\u200bwidth", "nb\u00a0sp", "ls\u2028ps\u2029", "nel\u0085", "\u00ad", "\ufffd", "\U000e0001", "Ċč", "Ġ", "Ĩĩ", "Ģģ", "ĺĬ", "ĿĽ", "ŻŽ", "śŝ", "Įĥį", "上不😊", `ends in \n`, `n\`, "nn", `\\n`, "x#", "##", "#é", "a# b", "é#", "a&b", `a"b`, "a'b", `say "hi"`, `back\slash`, "tick`tock", `a\nb`, `\"`, `\x`, `\t`, "{x}", "# h", "a#b", "50% off", "a&b", "<b>", "it's", "ünï", "日本", "a😀b", "x}y", "{", "q?", "a:b", "a,b", "a=b", "~☢<", ">☢~", "tab\there", `\`, `\\`, `"`, "`", "'", "&amp;", "a-b_c", "x.y", "@k", "a/b"}
 
 func c04(c *Ctx) {
 	c.tieQuote()
